@@ -30,6 +30,9 @@ DEV_M = {
     'jsx': {'options': {'jsx.enabled': True}},
     'maxRepeat2': {'maxRepeat': 2},
     'context-ul': {'context': {'name': 'ul'}},
+    # BEM with a context element that supplies no block / that supplies one
+    'bem-context': {'options': {'bem.enabled': True}, 'context': {'name': 'div'}},
+    'bem-context-block': {'options': {'bem.enabled': True}, 'context': {'name': 'div', 'attributes': {'class': 'blk blk_m'}}},
     'noformat': {'options': {'output.format': False}},
     'leaf': {'options': {'output.formatLeafNode': True, 'output.inlineBreak': 1}},
     'compact-reverse': {'options': {'output.compactBoolean': True, 'output.reverseAttributes': True,
